@@ -15,7 +15,6 @@ scan of the directory tree.
 import os
 import re
 import shutil
-import stat
 import tempfile
 import threading
 from collections.abc import Mapping
@@ -25,6 +24,7 @@ from hypothesis import strategies as st
 from valjean.config import Config
 from valjean.cosette.task import TaskStatus
 from valjean.cosette.run import RunTask, RunTaskFactory
+from valjean.cosette.code import CheckoutTask, BuildTask
 from valjean.cosette.depgraph import DepGraph
 from valjean.cosette.scheduler import Scheduler
 from valjean.cosette.env import Env
@@ -36,14 +36,16 @@ LEVEL = 'exploration'
 RULE = ('case = output root (existing / to be created) + pool of 1-4 distinct task names (ordinary, '
         'blanks/unicode/punctuation, confusable variants, invalid: empty, ".", "..", with "/", '
         'absolute, with NUL, >255 bytes) + 1-3 rounds; a round runs 1-4 RunTask objects of the pool '
-        '(from_cli / from_clis / closure / RunTaskFactory) with 1-5 commands each, directly '
+        '(from_cli / from_clis / closure / RunTaskFactory) with 1-5 commands each, or a CheckoutTask / '
+        'BuildTask whose git / cmake is a generated two-step script (1 task in 7), directly '
         '(task.do) or through Scheduler with 1-2 real worker threads, all in the same root; a '
         'command is a real /bin/sh process (inline -c, script file, or executable script) that '
         'marks its index, prints generated text on stdout and stderr and exits with a generated '
         'status 0-255 or kills itself (SIGKILL/SIGTERM), or an executable that cannot be started '
         '(missing absolute/relative, not executable, directory, bad format, NUL in the name). All '
-        '(length<=4, position, fault kind) x {direct, scheduled} single-task lists and all invalid '
-        'names are enumerated. non-trivial = some task has a non-zero status or an unstartable '
+        '(length<=4, position, fault kind) x {direct, scheduled} single-task lists, all invalid '
+        'names x constructors and all (step, fault kind / unstartable tool) of the checkout and build '
+        'tasks are enumerated. non-trivial = some task has a non-zero status or an unstartable '
         'command that is not in last position, or >= 2 task executions share the root; distinct = '
         'structural hash of the case; evaluations = task executions')
 ASSUMPTIONS = [
@@ -60,18 +62,23 @@ ASSUMPTIONS = [
     'task names are distinct within a round (documented requirement); a later round re-using a name '
     'is a re-run of that task: its capture files must hold the output of the latest run only',
     'surrogate code points are not generated (names and texts are valid unicode)',
+    'CheckoutTask / BuildTask are run with a script in place of git / cmake (instance attribute GIT / '
+    'CMAKE) and only with task names that are valid file names (also with ".log" appended, no '
+    'newline); for them the clauses are status, steps run, and content of the log file (both streams '
+    'in the order written); the own-directory clause is not applied to their shared log directory',
 ]
-BUDGET = {'quick': {'cases': 3200, 'shards': 16, 'seconds': 150, 'shrink_s': 20},
-          'thorough': {'cases': 160000, 'shards': 16, 'seconds': 840, 'shrink_s': 90}}
+BUDGET = {'quick': {'cases': 8000, 'shards': 16, 'seconds': 150, 'shrink_s': 20},
+          'thorough': {'cases': 120000, 'shards': 16, 'seconds': 780, 'shrink_s': 90}}
 FLOORS = {'direct': 0.3, 'sched': 0.3, 'sched-2w': 0.1, 'fail-nonlast': 0.25,
           'unstartable': 0.12, 'unstartable-nonlast': 0.05, 'invalid-name': 0.12,
           'rerun-same-name': 0.12, 'multi-task-root': 0.5, 'signal': 0.04,
-          'confusable-names': 0.05}
+          'confusable-names': 0.05, 'code-task': 0.15}
 
 TMPBASE = '/dev/shm' if os.path.isdir('/dev/shm') else '/var/tmp'
 HANG_S = 20.0
 MISSING = ['abs-missing', 'rel-missing', 'noexec', 'dir', 'badformat', 'nul']
 CAPTURE_NAMES = ('stdout', 'stderr')
+CODE_CTORS = ('checkout', 'build')
 
 
 # --------------------------------------------------------------------------
@@ -121,8 +128,10 @@ def _names(draw):
 
 
 @st.composite
-def _cmd(draw):
+def _cmd(draw, startable=False):
     what = draw(st.sampled_from(['ok'] * 12 + ['exit'] * 5 + ['signal'] + ['missing'] * 2))
+    if startable and what == 'missing':
+        what = 'exit'
     if what == 'missing':
         return {'kind': 'missing', 'how': draw(st.sampled_from(MISSING))}
     cmd = {'kind': 'sh', 'form': draw(st.sampled_from(['inline', 'inline', 'file', 'exec'])),
@@ -138,6 +147,11 @@ def _cmd(draw):
 
 @st.composite
 def _task(draw, npool):
+    if draw(st.integers(0, 6)) == 0:
+        # a CheckoutTask / BuildTask: two calls of one tool (git / cmake), here a generated script
+        return {'name': draw(st.integers(0, npool - 1)), 'ctor': draw(st.sampled_from(CODE_CTORS)),
+                'cmds': [draw(_cmd(startable=True)), draw(_cmd(startable=True))],
+                'tool': draw(st.sampled_from([None] * 5 + MISSING))}
     cmds = draw(st.lists(_cmd(), min_size=1, max_size=5))
     ctors = ['clis', 'clis', 'closure'] + (['cli', 'cli', 'factory'] if len(cmds) == 1 else [])
     return {'name': draw(st.integers(0, npool - 1)), 'ctor': draw(st.sampled_from(ctors)),
@@ -201,8 +215,22 @@ def enumerations(tier):
                             rounds.append({'mode': 'direct', 'workers': 0, 'tasks': list(reversed(tasks))})
                         yield {'root': 'exists', 'names': [name, 'good'], 'rounds': rounds}
 
+    def code_tasks():
+        for mode in ('direct', 'sched'):
+            for ctor in CODE_CTORS:
+                for tool in [None] + MISSING:
+                    for pos in ((None, 0, 1) if tool is None else (None,)):
+                        for fault in ([None] if pos is None else faults[:5]):
+                            cmds = [cmd_of(fault if k == pos else None, k) for k in range(2)]
+                            task = {'name': 0, 'ctor': ctor, 'cmds': cmds, 'tool': tool}
+                            other = {'name': 1, 'ctor': 'cli', 'cmds': [cmd_of(None, 9)]}
+                            yield {'root': 'missing', 'names': ['t', 'other'], 'rounds': [
+                                {'mode': mode, 'workers': 2, 'tasks': [task, other]},
+                                {'mode': mode, 'workers': 1, 'tasks': [task]}]}
+
     return [('fault-kind-x-position-n<=4', positions, True),
-            ('invalid-names', invalid_names, True)]
+            ('invalid-names', invalid_names, True),
+            ('checkout-build-steps', code_tasks, True)]
 
 
 # --------------------------------------------------------------------------
@@ -237,6 +265,9 @@ def name_class(name):
     return 'punct'
 
 
+_OK_CMD = {'kind': 'sh', 'form': 'inline', 'out': '', 'err': '', 'first': 'out', 'exit': 0, 'sig': None}
+
+
 def _printf_fmt(text):
     """``text`` as a printf format of sh made of safe characters only (no quote,
     no newline, no '$', no '%')."""
@@ -264,13 +295,31 @@ def _script(cmd, idx, marker):
 class Exec:
     """One execution of one task: the command lines and what the model expects."""
 
-    def __init__(self, spec, name, tmp, tag):
+    def __init__(self, spec, name):
         self.spec = spec
         self.name = name
         self.cls = name_class(name)
         self.valid = self.cls not in INVALID_CLASSES
-        self.marker = os.path.join(tmp, 'mark', tag)
+        self.ctor = spec['ctor']
+        if self.ctor in CODE_CTORS and not (self.valid and '\n' not in name
+                                            and len(name.encode('utf-8')) <= 240):
+            # the code tasks are driven only with names that are valid file names, also with
+            # '.log' appended, and that keep the echoed command line (which shows the
+            # directory named after the task) on one line
+            self.ctor = 'clis'
+        self.cmds = list(spec['cmds'])
+        self.tool = None
+        if self.ctor in CODE_CTORS:
+            # two steps, one tool: an unstartable tool makes both steps unstartable
+            self.cmds = (self.cmds + [dict(_OK_CMD), dict(_OK_CMD)])[:2]
+            hows = [spec.get('tool')] + [c['how'] for c in self.cmds if c['kind'] == 'missing']
+            hows = [h for h in hows if h]
+            if hows:
+                self.tool = hows[0]
+                self.cmds = [{'kind': 'missing', 'how': hows[0]}] * 2
+        self.marker = None
         self.clis = []
+        self.exp_log = b''
         self.ran = []            # indices of the commands the model runs
         self.codes = []          # their return codes
         self.start_fail = None   # how the first unstartable command (if reached) is unstartable
@@ -285,14 +334,14 @@ class Exec:
         self.status = None
         self.features = set()
         stopped = False
-        for idx, cmd in enumerate(spec['cmds']):
+        self.unstartable_after_stop = False
+        for idx, cmd in enumerate(self.cmds):
             if cmd['kind'] == 'missing':
-                self.clis.append(self._missing(cmd['how'], tmp, idx))
                 code = None
             else:
-                self.clis.append(self._sh(cmd, idx, tmp, tag))
                 code = -cmd['sig'] if cmd['sig'] else cmd['exit']
             if stopped:
+                self.unstartable_after_stop |= code is None
                 continue
             if code is None:
                 self.start_fail = cmd['how']
@@ -303,18 +352,41 @@ class Exec:
             self.codes.append(code)
             self.exp_out += cmd['out'].encode('utf-8')
             self.exp_err += cmd['err'].encode('utf-8')
+            both = [cmd['out'], cmd['err']] if cmd['first'] == 'out' else [cmd['err'], cmd['out']]
+            self.exp_log += ''.join(both).encode('utf-8')
             if code != 0:
                 self.first_bad = idx
                 stopped = True
-        ncmd = len(spec['cmds'])
+        ncmd = len(self.cmds)
         if self.first_bad is None:
             self.cause = 'all-zero'
         else:
-            cmd = spec['cmds'][self.first_bad]
+            cmd = self.cmds[self.first_bad]
             what = ('unstartable' if cmd['kind'] == 'missing' else 'signal' if cmd['sig'] else 'exit')
             self.cause = what + ('-last' if self.first_bad == ncmd - 1 else '-nonlast')
         self.kind = self.cause.rsplit('-', 1)[0] if self.first_bad is not None else 'all-zero'
         self.sig_name = 'valid' if self.valid else self.cls
+
+    def prepare(self, tmp, tag):
+        """Write the scripts and build the command lines."""
+        self.marker = os.path.join(tmp, 'mark', tag)
+        if self.ctor in CODE_CTORS:
+            if self.tool:
+                self.clis = [self._missing(self.tool, tmp, 0)[:1]]
+            else:
+                path = os.path.join(tmp, 'scr', f'{tag}_tool')
+                with open(path, 'w', encoding='utf-8') as fil:
+                    fil.write('#!/bin/sh\ncase "$1" in\ncheckout|--build) %s ;;\n*) %s ;;\nesac\n'
+                              % (_script(self.cmds[1], 1, self.marker),
+                                 _script(self.cmds[0], 0, self.marker)))
+                os.chmod(path, 0o755)
+                self.clis = [[path]]
+            return
+        for idx, cmd in enumerate(self.cmds):
+            if cmd['kind'] == 'missing':
+                self.clis.append(self._missing(cmd['how'], tmp, idx))
+            else:
+                self.clis.append(self._sh(cmd, idx, tmp, tag))
 
     def _sh(self, cmd, idx, tmp, tag):
         script = _script(cmd, idx, self.marker)
@@ -346,13 +418,21 @@ class Exec:
         raise ValueError(how)
 
     def build(self):
-        spec, clis = self.spec, self.clis
+        clis, ctor = self.clis, self.ctor
         try:
-            if spec['ctor'] == 'cli' and len(clis) == 1:
+            if ctor == 'checkout':
+                self.task = CheckoutTask(self.name, repository='/nonexistent/repository.git',
+                                         flags=['--depth', '1'])
+                self.task.GIT = clis[0][0]        # instance attribute: nothing global is changed
+            elif ctor == 'build':
+                self.task = BuildTask(self.name, source=os.path.dirname(self.marker),
+                                      configure_flags=['-DX=1'], targets=['all'])
+                self.task.CMAKE = clis[0][0]
+            elif ctor == 'cli' and len(clis) == 1:
                 self.task = RunTask.from_cli(self.name, clis[0])
-            elif spec['ctor'] == 'closure':
+            elif ctor == 'closure':
                 self.task = RunTask(self.name, lambda _env, _config: clis)
-            elif spec['ctor'] == 'factory' and len(clis) == 1:
+            elif ctor == 'factory' and len(clis) == 1:
                 # final task name = <given name>.f ; self.name was computed accordingly
                 factory = RunTaskFactory.from_executable(clis[0][0], name='f')
                 self.task = factory.make(name=self.name[:-2], extra_args=list(clis[0][1:]))
@@ -367,6 +447,63 @@ def _final_name(spec, names, tmp):
     if spec['ctor'] == 'factory' and len(spec['cmds']) == 1:
         name = name + '.f'
     return name.replace('@TMP@', tmp)
+
+
+def _plan(case, tmp):
+    """The executions of every round (model only; names unique within a round by
+    construction: a second task with a name already used in the round is dropped)."""
+    plan = []
+    for rnd in case['rounds']:
+        execs, seen = [], set()
+        for spec in rnd['tasks']:
+            name = _final_name(spec, case['names'], tmp)
+            if name not in seen:
+                seen.add(name)
+                execs.append(Exec(spec, name))
+        plan.append(execs)
+    return plan
+
+
+def _input_labels(case, plan, out):
+    """Classes of the *input* (independent of what the code under test does)."""
+    lab = out.labels
+    lab.append('root-' + case['root'])
+    names_so_far = set()
+    for rnd, execs in zip(case['rounds'], plan):
+        lab.append(rnd['mode'])
+        if rnd['mode'] == 'sched' and (rnd.get('workers') or 1) >= 2:
+            lab.append('sched-2w')
+        for exe in execs:
+            lab.append('ctor-' + exe.ctor)
+            if exe.ctor in CODE_CTORS:
+                lab.append('code-task')
+            lab.append('ncmd=%d' % min(len(exe.cmds), 5))
+            lab.append('name:' + exe.cls)
+            if not exe.valid:
+                lab.append('invalid-name')
+            if exe.name in names_so_far:
+                lab.append('rerun-same-name')
+            if exe.cause.endswith('-nonlast'):
+                lab.append('fail-nonlast')
+                out.nontrivial = True
+            lab.append(exe.kind if exe.kind != 'exit' else 'exit-nonzero')
+            if exe.kind == 'unstartable':
+                lab.append('unstartable:' + exe.start_fail)
+                if exe.cause.endswith('-nonlast'):
+                    lab.append('unstartable-nonlast')
+            if exe.ctor not in CODE_CTORS:
+                lab.extend('form-' + c['form'] for c in exe.cmds if c['kind'] == 'sh')
+        names_so_far |= {exe.name for exe in execs}
+        folded = {}
+        for exe in execs:
+            folded.setdefault(re.sub(r'[\s/_.]+', '', exe.name).lower(), set()).add(exe.name)
+        if any(len(v) > 1 for v in folded.values()):
+            lab.append('confusable-names')
+    if sum(len(execs) for execs in plan) >= 2:
+        lab.append('multi-task-root')
+        out.nontrivial = True
+    if len(plan) > 1:
+        lab.append('multi-round')
 
 
 def _read(path):
@@ -433,27 +570,18 @@ def _history(case, tmp, out):
         os.mkdir(root)
     elif case['root'] == 'deep-missing':
         root = os.path.join(root, 'deep', 'er')
-    out.labels.append('root-' + case['root'])
     config = Config({'path': {'output-root': root, 'log-root': os.path.join(tmp, 'fx', 'log'),
                               'report-root': os.path.join(tmp, 'fx', 'report')}})
-    names = case['names']
+    plan = _plan(case, tmp)
+    _input_labels(case, plan, out)
     state = {'last': {}, 'owners': {}, 'loose': set(), 'tainted': False, 'root_is_task_dir': False}
-    n_exec = 0
-    for rnd_idx, rnd in enumerate(case['rounds']):
-        execs, seen = [], set()
-        for t_idx, spec in enumerate(rnd['tasks']):
-            name = _final_name(spec, names, tmp)
-            if name in seen:
-                continue        # names are unique within a run (construction, not rejection)
-            seen.add(name)
-            execs.append(Exec(spec, name, tmp, f'r{rnd_idx}t{t_idx}'))
-        for exe in execs:
+    for rnd_idx, (rnd, execs) in enumerate(zip(case['rounds'], plan)):
+        for t_idx, exe in enumerate(execs):
+            exe.prepare(tmp, f'r{rnd_idx}t{t_idx}')
             exe.build()
         runnable = [exe for exe in execs if exe.task is not None]
-        n_exec += len(execs)
         out.evals += len(execs)
         mode = rnd['mode']
-        out.labels.append(mode)
         sched_problem = None
         if mode == 'direct':
             for exe in runnable:
@@ -463,73 +591,32 @@ def _history(case, tmp, out):
                     exe.raised = exc       # and invalid names
         elif runnable:
             workers = rnd.get('workers') or 1
-            if workers >= 2:
-                out.labels.append('sched-2w')
             box = {}
             thread = threading.Thread(target=_schedule, daemon=True,
                                       args=([exe.task for exe in runnable], workers, config, box))
             thread.start()
             thread.join(HANG_S)
-            causes = '+'.join(sorted({'unstartable:' + exe.start_fail for exe in runnable
-                                      if exe.start_fail} |
-                                     {'name=' + exe.cls for exe in runnable if not exe.valid})
-                              ) or 'plain'
+            cause = ('unstartable-command' if any(exe.kind == 'unstartable' for exe in runnable)
+                     else 'invalid-name' if any(not exe.valid for exe in runnable) else 'plain')
             if thread.is_alive():
-                sched_problem = Failure('sched_hangs', f'C19/sched_hangs/{causes}',
+                sched_problem = Failure('sched_hangs', f'C19/sched_hangs/{cause}',
                                         f'schedule() did not return within {HANG_S} s')
             elif 'exc' in box:
-                sched_problem = exc_failure('schedule_raises', box['exc'], causes)
+                sched_problem = exc_failure('schedule_raises', box['exc'], cause)
             else:
                 env = box['env']
                 for exe in runnable:
-                    entry = env.get(exe.name) if hasattr(env, 'get') else None
-                    exe.result = ('sched', entry)
+                    exe.result = ('sched', env.get(exe.name))
         if sched_problem is not None:
             out.failures.append(sched_problem)
             out.labels.append('stopped-after-scheduler-failure')
             break
         _judge_round(execs, mode, root, tmp, state, out)
-        _classify(execs, state, out)
+        for exe in execs:
+            out.labels.extend(exe.features)
         if state['tainted']:
             out.labels.append('stopped-after-shared-directory')
             break
-    if n_exec >= 2:
-        out.labels.append('multi-task-root')
-        out.nontrivial = True
-    if len(case['rounds']) > 1:
-        out.labels.append('multi-round')
-
-
-def _classify(execs, state, out):
-    for exe in execs:
-        out.labels.append('ctor-' + exe.spec['ctor'])
-        out.labels.append('ncmd=%d' % min(len(exe.spec['cmds']), 5))
-        if exe.cause.endswith('-nonlast'):
-            out.labels.append('fail-nonlast')
-            out.nontrivial = True
-        if exe.cause.startswith('unstartable'):
-            out.labels.append('unstartable')
-            out.labels.append('unstartable:' + exe.start_fail)
-            if exe.cause.endswith('-nonlast'):
-                out.labels.append('unstartable-nonlast')
-        if exe.cause.startswith('signal'):
-            out.labels.append('signal')
-        if exe.cause.startswith('exit'):
-            out.labels.append('exit-nonzero')
-        if exe.cause == 'all-zero':
-            out.labels.append('all-zero')
-        out.labels.append('name:' + exe.cls)
-        if not exe.valid:
-            out.labels.append('invalid-name')
-        out.labels.extend(exe.features)
-        forms = {c.get('form') for c in exe.spec['cmds'] if c['kind'] == 'sh'}
-        out.labels.extend('form-' + f for f in forms)
-    folded = {}
-    for exe in execs:
-        key = re.sub(r'[\s/_.]+', '', exe.name).lower()
-        folded.setdefault(key, set()).add(exe.name)
-    if any(len(v) > 1 for v in folded.values()):
-        out.labels.append('confusable-names')
 
 
 def _status_name(status):
@@ -540,6 +627,9 @@ def _judge_round(execs, mode, root, tmp, state, out):
     fails = []      # (exe, Failure)
     executed = set()
     for exe in execs:
+        if exe.ctor in CODE_CTORS:
+            _judge_code(exe, mode, tmp, fails)
+            continue
         executed.add(exe.name)
         _judge_exec(exe, mode, root, tmp, state, fails)
     # tasks of earlier rounds that were not executed now: their files must be untouched
@@ -578,7 +668,8 @@ def _judge_round(execs, mode, root, tmp, state, out):
         where = {os.path.dirname(path) for path in stray}
         blamed = {exe.sig_name for exe in execs if '\0' not in exe.name
                   and os.path.normpath(os.path.join(real_root, exe.name)) in where}
-        blamed = blamed or {exe.sig_name for exe in execs}
+        if not blamed:     # a task whose name is rejected up front writes nothing
+            blamed = {'valid'} if any(exe.valid for exe in execs) else {exe.sig_name for exe in execs}
         kind = ('not-below-root' if any(not _inside(d, real_root) for d in where) else 'stray')
         fails.append((None, Failure(
             'own_dir', f'C19/own_dir/{kind}/name=' + '+'.join(sorted(blamed)),
@@ -597,14 +688,75 @@ def _judge_round(execs, mode, root, tmp, state, out):
         out.failures.append(fail)
 
 
+def _judge_code(exe, mode, tmp, fails):
+    """CheckoutTask / BuildTask (valid names only): status, which steps ran, log content."""
+    def fail(clause, sig, detail):
+        fails.append((exe, Failure(clause, f'C19/{sig}/code-task',
+                                   f'{exe.ctor} task {exe.name!r} [{mode}]: {detail}')))
+
+    if exe.task is None:
+        fails.append((exe, exc_failure('ctor_raises', exe.ctor_exc, 'code-task')))
+        return
+    status, update, raised = None, None, exe.raised
+    key = 'checkout_log' if exe.ctor == 'checkout' else 'build_log'
+    if mode == 'direct':
+        if raised is None:
+            res = exe.result
+            if not (isinstance(res, tuple) and len(res) == 2):
+                fail('result_shape', 'result_shape', f'do() returned {res!r:.200}')
+                return
+            env_up, status = res
+            update = env_up.get(exe.name) if isinstance(env_up, Mapping) else None
+    else:
+        entry = exe.result[1]
+        if not isinstance(entry, dict) or 'status' not in entry:
+            fail('no_status', f'no_status/{exe.kind}', f'no status in the environment: {entry!r:.200}')
+            return
+        status = entry['status']
+        update = entry if key in entry else None
+    try:
+        marks = _read(exe.marker).decode().split()
+    except FileNotFoundError:
+        marks = []
+    ran_ok = marks == [str(i) for i in exe.ran]
+    if not ran_ok:
+        extra = 'later-commands-ran' if len(marks) > len(exe.ran) else 'commands-missing'
+        fail('commands_run', f'commands_run/{extra}/{exe.kind}',
+             f'steps that ran: {marks}, expected {exe.ran} ({exe.cause})')
+        return
+    if exe.start_fail is not None:
+        if mode == 'direct' and raised is not None:
+            exe.features.add('unstartable-raises-in-do')
+        elif status != TaskStatus.FAILED:
+            how = 'nul-in-command' if exe.start_fail == 'nul' else 'os-refuses'
+            fail('start_failure', f'start_failure/got={_status_name(status)}/{how}',
+                 f'the tool cannot be started but the task is {status}')
+    elif raised is not None:
+        fails.append((exe, exc_failure('do_raises', raised, f'{exe.kind}/code-task')))
+        return
+    else:
+        expected = TaskStatus.DONE if exe.cause == 'all-zero' else TaskStatus.FAILED
+        if status != expected:
+            fail('status', f'status/exp={expected.name}/got={_status_name(status)}/{exe.cause}',
+                 f'codes per model {exe.codes}, status {status}')
+        elif update is None:
+            fail('update_missing', f'update_missing/{exe.kind}', 'no environment update')
+    path = update.get(key) if update is not None else os.path.join(tmp, 'fx', 'log', exe.name + '.log')
+    if isinstance(path, str) and os.path.isfile(path):
+        got = _strip_echo(_read(path))
+        if got != exe.exp_log:
+            fail('log_content', 'capture_content/log',
+                 f'{path} holds {_short(got)}, the steps wrote {_short(exe.exp_log)}')
+    elif update is not None:
+        fail('capture_path', 'capture_path/missing-log', f'no log file at {path!r}')
+
+
 def _judge_exec(exe, mode, root, tmp, state, fails):
     def fail(clause, sig, detail):
         fails.append((exe, Failure(clause, f'C19/{sig}', f'task {exe.name!r} [{mode}]: {detail}')))
 
     rerun = 'rerun' if exe.name in state['last'] else 'fresh'
-    if rerun == 'rerun':
-        exe.features.add('rerun-same-name')
-    prev = state['last'].pop(exe.name, None)
+    state['last'].pop(exe.name, None)
     guess_dir = os.path.join(root, exe.name) if exe.valid else None
 
     # ---- construction
@@ -641,7 +793,8 @@ def _judge_exec(exe, mode, root, tmp, state, fails):
         if raised is not None or status == TaskStatus.FAILED:
             exe.features.add('invalid-name-fails-cleanly')
             return
-        fail('invalid_name', f'invalid_name/status={_status_name(status)}/name={exe.cls}',
+        group = exe.cls if exe.cls in ('empty', 'toolong') else 'forbidden-characters'
+        fail('invalid_name', f'invalid_name/status={_status_name(status)}/name={group}',
              f'status {status} without any environment update')
         return
 
@@ -652,7 +805,15 @@ def _judge_exec(exe, mode, root, tmp, state, fails):
     except FileNotFoundError:
         marks = []
     ran_ok = marks == [str(i) for i in exe.ran]
-    if not ran_ok:
+    failed_early = raised is not None or (status == TaskStatus.FAILED and update is None)
+    if ran_ok and exe.start_fail is None and exe.unstartable_after_stop and failed_early:
+        # the list goes on, after the command that ends it, with one that cannot be started
+        # (which leaves no mark): a start-up failure here means that the list was not ended
+        ran_ok = False
+        fail('commands_run', f'commands_run/later-commands-ran/{exe.kind}',
+             f'start-up failure ({raised!r:.150}) although the list ends at command '
+             f'{exe.first_bad} ({exe.cause}); only later commands cannot be started')
+    elif not ran_ok:
         extra = 'later-commands-ran' if len(marks) > len(exe.ran) else 'commands-missing'
         if any('survived' in m for m in marks):
             extra = 'signal-survived'      # would be a defect of the harness script, not of valjean
@@ -667,7 +828,8 @@ def _judge_exec(exe, mode, root, tmp, state, fails):
         if mode == 'direct' and raised is not None:
             exe.features.add('unstartable-raises-in-do')
         elif status != TaskStatus.FAILED:
-            fail('start_failure', f'start_failure/got={_status_name(status)}/how={exe.start_fail}',
+            how = 'nul-in-command' if exe.start_fail == 'nul' else 'os-refuses'
+            fail('start_failure', f'start_failure/got={_status_name(status)}/{how}',
                  f'command {exe.first_bad} cannot be started but the task is {status}')
     else:
         if raised is not None:
@@ -693,7 +855,7 @@ def _judge_exec(exe, mode, root, tmp, state, fails):
             if exe.start_fail is None:
                 fail('return_codes', 'return_codes/missing', f'no return_codes in {sorted(update)}')
         elif list(codes) != exe.codes:
-            fail('return_codes', f'return_codes/{exe.cause}',
+            fail('return_codes', f'return_codes/{exe.kind}',
                  f'recorded {list(codes)!r:.120}, commands run returned {exe.codes}')
 
     # ---- captured output and its location
@@ -760,7 +922,19 @@ def _judge_exec(exe, mode, root, tmp, state, fails):
             rec[stream] = (paths[stream], got)    # as seen now: must stay so while not re-run
         if len(rec) == 2:
             state['last'][exe.name] = rec
-    del prev
+
+
+def _runs_empty_name(case, _failure):
+    """A RunTask whose name is the empty string is executed in the case."""
+    names = case['names']
+    return any(names[t['name'] % len(names)] == ''
+               and not (t['ctor'] == 'factory' and len(t['cmds']) == 1)    # that one is named '.f'
+               for rnd in case['rounds'] for t in rnd['tasks'])
+
+
+# only used if the defect is recorded as a known finding instead of being repaired
+# (signature C19/own_dir/not-below-root/name=empty); cases without such a task stay strict
+KNOWN_PREDICATES = {'runtask_with_empty_name': _runs_empty_name}
 
 
 MANIFEST = {
@@ -768,9 +942,10 @@ MANIFEST = {
              'of 1-4 tasks with 1-5 real /bin/sh commands each (generated exit status 0-255, death by '
              'signal, text on both streams, six kinds of unstartable executable at any position), run '
              'through task.do and through Scheduler with 1-2 real worker threads, with ordinary, odd, '
-             'confusable and invalid task names and re-runs of a name. All (list length<=4, failing '
-             'position, fault kind) x {direct, scheduled} and all invalid names x constructors are '
-             'enumerated exhaustively. Oracle = model "run in order, stop at first non-zero" over the '
+             'confusable and invalid task names and re-runs of a name; one task in seven is a '
+             'CheckoutTask/BuildTask driven with a generated script in place of git/cmake. All (list '
+             'length<=4, failing position, fault kind) x {direct, scheduled}, all invalid names x '
+             'constructors and all (step, fault) of the checkout/build tasks are enumerated exhaustively. Oracle = model "run in order, stop at first non-zero" over the '
              'generated statuses/texts, marker file appended by the commands themselves (which commands '
              'really ran), byte comparison of the capture files, and a scan of the whole scratch tree '
              '(every file lies in the directory of exactly one task, strictly below the root, no two '
@@ -779,7 +954,7 @@ MANIFEST = {
     'note': ('Real processes and real threads: the interleaving of two workers is whatever the OS gives '
              '(the per-task results are interleaving-independent). Echo lines "$ ..." of RunTask are '
              'stripped from stderr, so their presence/format is not checked. CheckoutTask/BuildTask '
-             '(git, cmake) are not driven; they share run() which is exercised through RunTask. '
+             'are driven with a fake tool and valid names only (real git/cmake are not run). '
              'Return codes of a task whose command could not be started are compared only if recorded.'),
     'technique': ('property-based testing of operation histories (Hypothesis) + exhaustive enumeration of '
                   'fault positions, reference-model oracle with side-channel marker files'),
